@@ -22,8 +22,9 @@ EXPLANATION = (
     "call_soon, or the future already done; (R3) the timeout callback and _close_transport complete a pending future on every path; "
     "(R4) each recursive send_request call is dominated by 'self._retry < self.retries' and exactly one 'self._retry += 1' with no "
     "other write in between (ranking function retries - _retry), the false outcome returns _max_retries_reached(), and each "
-    "activation transmits at most once; (R5) create_connection is awaited only under asyncio.wait_for(..., timeout <= 5). Timing and "
-    "exact counts under fault scripts are not decided."
+    "activation transmits at most once; (R5) create_connection is awaited only under asyncio.wait_for(..., timeout <= 5); (R6) the "
+    "validators run by the receive callbacks are total (index and conversion safety, shared with C01.R4), so that no exception other "
+    "than the two documented ones leaves a callback after it cancelled the timer. Timing and exact counts under fault scripts are not decided."
 )
 
 
@@ -33,12 +34,20 @@ def check(ctx: Ctx, rep: Report):
     rep.rule("C04.R3", "the timeout callback and _close_transport complete a pending future on every path", 6)
     rep.rule("C04.R4", "retry recursion is bounded: guard _retry < retries, one increment, no other writes; exhausted budget returns _max_retries_reached(); one transmission per activation", 8)
     rep.rule("C04.R5", "TCP connect is awaited only under asyncio.wait_for with a constant timeout <= 5 s", 1)
+    rep.rule("C04.R6", "the validators the receive callbacks run are total (shared with C01.R4): any other exception leaves the callback after the timer was cancelled, with the future still pending", 12)
     for ci in proto_classes(ctx):
         r1(ctx, rep, ci)
         r2(ctx, rep, ci)
         r3(ctx, rep, ci)
         r4(ctx, rep, ci)
     r5(ctx, rep)
+    # ---- R6 shared with C01
+    from ..framing import families
+    from .c01 import r4 as c01_r4
+    sub = Report("C01", rep.tier)
+    c01_r4(ctx, sub, ctx.memo("families", lambda: families(ctx.prog, ctx.res)))
+    for o in sub.obligations:
+        rep.obligations.append(type(o)("C04.R6", o.key, o.where, o.what, o.status, o.detail))
 
 
 def r1(ctx, rep, ci):
